@@ -716,7 +716,21 @@ class ImageBatch(DataTensor):
             size = grids[0].size()
             data = U.grid_resize(self, size, mode=mode, align_corners=align_corners)
         else:
-            points = grids[0].coords(device=self.device)
+            # Sample images at the points of the finest level grids, mapped to the cube of the respective image grid
+            axes = Axes.from_align_corners(align_corners)
+            points = torch.cat(
+                [
+                    grid_transform_points(
+                        grid.coords(align_corners=align_corners, device=self.device),
+                        grid,
+                        axes,
+                        to_grid,
+                        axes,
+                    ).unsqueeze(0)
+                    for grid, to_grid in zip(grids, self._grid)
+                ],
+                dim=0,
+            )
             data = U.grid_sample(self, points, mode=mode, align_corners=align_corners)
         # Construct image pyramid by repeated downsampling
         pyramid = {}
